@@ -1023,6 +1023,24 @@ func (h *hndCase) execF(e *lp.Exec, lg *capLogger, f []string) {
 			}
 		}
 	}
+	// C13 in every handler configuration, one direction only (what a data-frame-only conn leaves unchecked — text validity,
+	// the sum of the fragments against the limit — is not judged here): a sequence the RFC allows is not failed.  Lenient
+	// twin (masking direction: known finding), no message limit in the twin when nothing is assembled.
+	tl := L
+	if h.g.handlers == "f" {
+		tl = 0
+	}
+	if tw := rfcTwin(twinCfg{server: !h.g.client, limit: tl}, refDecode(h.all), false); tw.verdict == "accept" && tw.may == "" && (ec != 0 || ep.closed) {
+		big := false
+		for _, fr := range refDecode(h.all) {
+			if L > 0 && fr.op <= 2 && fr.declared > uint64(L) {
+				big = true
+			}
+		}
+		if !big {
+			e.Oracle("c13-accept", "class=accept->err%d handlers=%s failed a sequence the RFC allows (%d frames so far)", ec, h.g.handlers, len(refDecode(h.all)))
+		}
+	}
 	if ec != 0 || ep.closed {
 		h.dead = true
 	}
